@@ -124,7 +124,123 @@ pub fn run(thorough: bool, mut rng: Rng, mut out: Out) {
             Err(e) => out.r(&label, false, &format!("panic {}", e)),
         }
     }
+    // (iv) a waiter that learns late that its operation is gone: A waits (with or without a time-out), another
+    // handle abandons A's ID, the counter comes round and C's request leaves under that ID, and only THEN does
+    // A's task run and see its failure; afterwards the counter comes round again and D allocates.  Whatever A's
+    // error path does (a stale scrub, say) must not release the ID C now owns: D's ID must differ from C's while
+    // C is unanswered, and both get their own answers.
+    let nlate = if thorough { 200 } else { 24 };
+    for h in 0..nlate {
+        let a_tmo = if h % 3 == 1 { Some(60_000u64) } else { None };
+        let base = *rng.pick(&[1i32, 2, 7, 100, N - 1, N]);
+        let extra_polls = rng.below(3) as usize;
+        let res = guarded(move || late_wakeup(a_tmo, base, extra_polls));
+        let label = format!("ids.late-wakeup-of-abandoned-waiter a_timeout={:?} n={} polls={}", a_tmo, base, extra_polls);
+        out.case(&format!("{} #{}", label, h), true);
+        out.stat("late-wakeup.scenarios");
+        match res {
+            Ok((ok, detail)) => out.r(&label, ok, &detail),
+            Err(e) => out.r(&label, false, &format!("panic {}", e)),
+        }
+    }
     out.finish("the real msgmap positioned at last in {0,1,2,100,N-2,N-1,N} x in-use sets (empty, singletons, dense runs across the wrap point, random) and random positions; multi-thread bursts from 1..6 cloned handles with a server-side uniqueness oracle; non-trivial = non-empty in-use set / at least 2 requests; distinct by FNV of the request line");
+}
+
+/// scenario (iv) of `run`; futures are polled by hand so that A's task observably runs last
+fn late_wakeup(a_tmo: Option<u64>, n: i32, extra_polls: usize) -> (bool, String) {
+    use futures_util::poll;
+    let rt = tokio::runtime::Builder::new_current_thread().enable_time().start_paused(true).build().unwrap();
+    rt.block_on(async move {
+        let (io, net) = simnet::pair();
+        let (conn, ldap) = LdapConnAsync::verif_pair(Box::new(io));
+        tokio::spawn(async move {
+            let _ = conn.drive().await;
+        });
+        async fn settle() {
+            for _ in 0..40 {
+                tokio::task::yield_now().await;
+            }
+        }
+        let mut inbuf: Vec<u8> = vec![];
+        let mut next_req = |net: &simnet::Net, inbuf: &mut Vec<u8>| -> Option<(i64, u64)> {
+            inbuf.extend(net.take_written());
+            read_msg(inbuf)
+        };
+        let (mut a, mut b, mut c, mut d) = (ldap.clone(), ldap.clone(), ldap.clone(), ldap.clone());
+        // 1. A's Delete leaves under ID n and stays pending
+        ldap.verif_set_msgmap(if n <= 1 { N } else { n - 1 }, &[]);
+        if let Some(t) = a_tmo {
+            a.with_timeout(std::time::Duration::from_millis(t));
+        }
+        let mut fut_a = Box::pin(a.delete("cn=a"));
+        if !poll!(&mut fut_a).is_pending() {
+            return (false, String::from("A resolved without an answer"));
+        }
+        settle().await;
+        let Some((ida, _)) = next_req(&net, &mut inbuf) else { return (false, String::from("A's request not written")) };
+        if ida != n as i64 {
+            return (false, format!("A left under {} instead of {}", ida, n));
+        }
+        // 2. B abandons n
+        if b.abandon(n).await.is_err() {
+            return (false, String::from("abandon failed"));
+        }
+        settle().await;
+        let _ = next_req(&net, &mut inbuf);
+        let (_, used) = ldap.verif_msgmap();
+        if !used.is_empty() {
+            return (false, format!("IDs still reserved after the Abandon: {:?}", used));
+        }
+        // 3. the counter comes round: C's Delete leaves under n and stays pending
+        ldap.verif_set_msgmap(if n <= 1 { N } else { n - 1 }, &used);
+        let mut fut_c = Box::pin(c.delete("cn=c"));
+        if !poll!(&mut fut_c).is_pending() {
+            return (false, String::from("C resolved without an answer"));
+        }
+        settle().await;
+        let Some((idc, _)) = next_req(&net, &mut inbuf) else { return (false, String::from("C's request not written")) };
+        if idc != n as i64 {
+            return (false, format!("C left under {} instead of the free ID {}", idc, n));
+        }
+        // 4. only now does A's task run
+        let ra = fut_a.await;
+        if ra.is_ok() {
+            return (false, String::from("A returned a result although its operation was abandoned and never answered"));
+        }
+        drop(a);
+        settle().await;
+        for _ in 0..extra_polls {
+            let _ = poll!(&mut fut_c);
+            settle().await;
+        }
+        // 5. the counter comes round again: D must not get C's ID
+        let (_, used) = ldap.verif_msgmap();
+        ldap.verif_set_msgmap(if n <= 1 { N } else { n - 1 }, &used);
+        let mut fut_d = Box::pin(d.delete("cn=d"));
+        if !poll!(&mut fut_d).is_pending() {
+            return (false, String::from("D resolved without an answer"));
+        }
+        settle().await;
+        let Some((idd, _)) = next_req(&net, &mut inbuf) else { return (false, String::from("D's request not written")) };
+        if idd == idc {
+            return (false, format!("two outstanding requests left the client under the same message ID {} (table before D's allocation: {:?})", idd, used));
+        }
+        if !used.contains(&(idc as i32)) {
+            return (false, format!("C (ID {}) is outstanding but its ID is not reserved: {:?}", idc, used));
+        }
+        // both get their own answers
+        net.send(&crate::scen::result_frame(idc, 11, 31));
+        net.send(&crate::scen::result_frame(idd, 11, 32));
+        settle().await;
+        let rc = tokio::time::timeout(std::time::Duration::from_secs(5), fut_c).await;
+        let rd = tokio::time::timeout(std::time::Duration::from_secs(5), fut_d).await;
+        let tc = rc.ok().and_then(|r| r.ok()).map(|r| r.text);
+        let td = rd.ok().and_then(|r| r.ok()).map(|r| r.text);
+        if tc.as_deref() != Some("tok31") || td.as_deref() != Some("tok32") {
+            return (false, format!("C got {:?} (expected tok31), D got {:?} (expected tok32)", tc, td));
+        }
+        (true, String::new())
+    })
 }
 
 fn read_msg(buf: &mut Vec<u8>) -> Option<(i64, u64)> {
